@@ -452,3 +452,47 @@ def cross_process_probe(ctx, basis="cum"):
     if not res["equal_to_local"]:
         probs.insert(0, "the unpickled triangle is not cell-for-cell equal to the locally built one")
     return probs, None
+
+
+# ------------------------------------------------------------------ family Q: large inputs (python oracles only)
+def big_triangle(slice_sizes=(256, 1), n_evals=4, start=(2000, 1), fields=("paid", "prem"), value_shift=0,
+                 alias_every=0, inc=False, limit=None):
+    """One slice per entry of slice_sizes (cells per slice, monthly periods x n_evals evaluation dates, the last
+    period partial), metadata differing in details['lob'] (and per_occurrence_limit when `limit`)."""
+    b = bermuda()
+    cells = []
+    for si, size in enumerate(slice_sizes):
+        kw = dict(country="US", details={"lob": f"L{si:05d}", "grp": si % 7})
+        if limit:
+            kw["per_occurrence_limit"] = limit + si
+        m = b.Metadata(**kw)
+        m_alias = b.Metadata(**{**kw, "details": {"grp": float(si % 7), "lob": f"L{si:05d}"}}) if alias_every else None
+        n = 0
+        p = 0
+        while n < size:
+            ps = D(start[0] + (start[1] - 1 + p) // 12, (start[1] - 1 + p) % 12 + 1, 1)
+            pe = add_months_end(ps, 0)
+            prev = ps - ONE
+            for e in range(n_evals):
+                if n >= size:
+                    break
+                ev = add_months_end(pe, 3 * e)
+                vals = {f: (1000 * si + 10 * p + e + value_shift if fi == 0 else 7 * p + si + value_shift)
+                        for fi, f in enumerate(fields)}
+                mm = m_alias if alias_every and n % alias_every == 1 else m
+                if inc:
+                    cells.append(b.IncrementalCell(period_start=ps, period_end=pe, prev_evaluation_date=prev,
+                                                   evaluation_date=ev, values=vals, metadata=mm))
+                    prev = ev
+                else:
+                    cells.append(b.CumulativeCell(period_start=ps, period_end=pe, evaluation_date=ev, values=vals, metadata=mm))
+                n += 1
+            p += 1
+    return mk_triangle(cells)
+
+
+def same_cells_fast(out, want):
+    """the same cells in the same order: identity, or strict canonical equality where a copy was made"""
+    if len(out) != len(want):
+        return False
+    return all(o is w or ct.canon_cell(o, ordered=True) == ct.canon_cell(w, ordered=True) for o, w in zip(out, want))
